@@ -245,6 +245,7 @@ def run_const_stream(run, model, plat, nexpr, depth, workdir):
         got2, src2 = dump_roots(plat, subs, workdir, "c01_shrink")
         ev2, _ = model_eval(model, plat, subs, [])
         evmap = {id(n): ev2[k] for k, n in enumerate(subs)}
+        evmap["model"] = model
         fails = set()
         info = {}
         for k, n in enumerate(subs):
@@ -398,7 +399,16 @@ def known_class(n, plat, want, got, r, sig, ev_of):
         if x.kind == "L":
             return x.t[0] + x.t[1]
         rr = ev_of.get(id(x))
-        return (rr[1] + rr[2]).decode() if rr and rr[0] == b"V" else "?"
+        if rr and rr[0] == b"V":
+            return (rr[1] + rr[2]).decode()
+        # not evaluated (UB or unevaluated arm): ask the model for the static type
+        model = ev_of.get("model")
+        if model:
+            rc_, out_, _ = vlib.run_lines([model], [vlib.enc_case(["type"] + plat_fields(plat) + x.fields())])
+            tt = vlib.dec_line(out_[0]) if out_ else []
+            if tt and tt[0] == b"T":
+                return (tt[1] + tt[2]).decode()
+        return "?"
 
     def pb(t):  # promoted (bits, sign, base) of a type signature like 'iu'
         if not t or t == "?":
